@@ -346,7 +346,7 @@ func cliReplay(res *vutil.Result, cases, work, cbin, xbin string, stride int) {
 				}
 			}
 		}
-		if k%4999 == 1 {
+		if nontrivial && c.Quote && len(files) > 1 && sampleCap.ok("cli", 3) {
 			class, _ := treeDesc(files, c.All, c.Quote)
 			res.Sample(map[string]interface{}{"round_trip": class, "txtar_c": r.cargs, "txtar_x": r.xargs, "archive": string(r.archive)}, 6)
 		}
